@@ -23,7 +23,7 @@ RULE = ("case = seeded random UFO as in C01 (plus repeated contours so that subr
         "the font has a curve or a component")
 ASSUMPTIONS = [
     "fontTools' CFF/CFF2 reader is trusted to report what is stored",
-    "default rounding only (integer coordinates); normal form of DESIGN 4.1 (draws-nothing "
+    "default rounding, and 20 % of the non-integer fonts with an explicit roundTolerance of 0 / 0.25 (fractional coordinates kept; cffsubr's tx stores relative operands with two decimals, so drawings are compared within 0.005 x the number of coordinates); normal form of DESIGN 4.1 (draws-nothing "
     "operations removed, cyclic comparison, collinear axis-parallel points merged); strict "
     "differences are counted per kind in the evidence",
 ]
@@ -127,8 +127,11 @@ def gen(rng, idx, tier):
     if rng.random() < 0.2:
         info["postscriptDefaultWidthX"] = rng.choice([600, 600, 0, -10])
         info["postscriptNominalWidthX"] = rng.choice([500, 600, 0, -40, -250.5])
+    # an explicit rounding tolerance (fractional coordinates are kept): the same one for every
+    # combination, so what is drawn must still not depend on the combination
+    tol = rng.choice([0, 0.25]) if mode != "int" and rng.random() < 0.2 else None
     return {"ufo": {"glyphs": glyphs, "info": info, "kerning": kerning, "features": features},
-            "lib": rng.choice(["defcon", "ufoLib2"])}
+            "roundTolerance": tol, "lib": rng.choice(["defcon", "ufoLib2"])}
 
 
 def sample_view(case):
@@ -153,6 +156,23 @@ def observe(tt, names):
             cs.draw(RecordingPen())
             out[n]["cswidth"] = cs.width     # the charstring's own width operand (CFF 1 only)
     return out
+
+
+def _approx(a, b, tol=0.01):
+    if isinstance(a, (int, float)) and isinstance(b, (int, float)) and not isinstance(a, bool):
+        return abs(a - b) <= tol
+    if isinstance(a, (list, tuple)) and isinstance(b, (list, tuple)):
+        return len(a) == len(b) and all(_approx(x, y, tol) for x, y in zip(a, b))
+    try:
+        return abs(float(a) - float(b)) <= tol
+    except (TypeError, ValueError):
+        return a == b
+
+
+def _count(a):
+    if isinstance(a, (list, tuple)):
+        return sum(_count(x) for x in a)
+    return 1
 
 
 def n_subrs(tt):
@@ -192,6 +212,8 @@ def run(case):
         kw = dict(useProductionNames=False, optimizeCFF=opt, cffVersion=ver)
         if sub is not None:
             kw["subroutinizer"] = sub
+        if case.get("roundTolerance") is not None:
+            kw["roundTolerance"] = case["roundTolerance"]
         supported = not (opt >= 2 and sub == "compreffor" and ver == 2)
         try:
             otf = ufo2ft.compileOTF(font, **kw)
@@ -235,6 +257,13 @@ def run(case):
         results[(opt, sub, ver)] = {"glyphs": obs, "layout": layout,
                                     "subrs": n_subrs(tt) if opt >= 2 else 0}
     keys = list(results)
+    fractional = case.get("roundTolerance") is not None
+    if fractional:
+        bump("fonts_compiled_with_explicit_round_tolerance")
+        if any(isinstance(v, float) and v != int(v) for r_ in results.values()
+               for o in r_["glyphs"].values() for _op, args in o["raw"] for pt in args if pt
+               for v in pt):
+            bump("fonts_keeping_fractional_coordinates")
     if len(keys) >= 2:
         ref_key = keys[0]
         ref = results[ref_key]
@@ -254,7 +283,21 @@ def run(case):
                         violations.append({"mech": "charstring_width_differs_from_hmtx", "detail": {
                             "glyph": n, "combo": list(key), "hmtx": side["adv"],
                             "charstring": side["cswidth"]}})
-                if a["merged"] != b["merged"]:
+                if fractional and a["merged"] != b["merged"] and k[0] >= 2 and k[1] != "compreffor":
+                    # cffsubr's tx rewrites fractional (relative) operands with two decimals: the
+                    # absolute position of the k-th point is off by up to 0.005 k - enough to
+                    # change what the normal form merges, so the recordings are compared instead
+                    ra, rb = a["raw"], b["raw"]
+                    if [o for o, _a in ra] != [o for o, _a in rb]:
+                        bump("fractional_tx_drawings_not_comparable")
+                    elif _approx([x for _o, x in ra], [x for _o, x in rb],
+                                 0.005 * _count([x for _o, x in ra]) + 0.002):
+                        bump("fractional_tx_drawings_equal_within_two_decimal_operands")
+                    else:
+                        violations.append({"mech": "drawing_differs", "detail": {
+                            "glyph": n, "combos": [list(ref_key), list(k)], "beyond_tx_noise": True,
+                            "a": str(ra)[:1500], "b": str(rb)[:1500]}})
+                elif a["merged"] != b["merged"]:
                     violations.append({"mech": "drawing_differs", "detail": {
                         "glyph": n, "combos": [list(ref_key), list(k)],
                         "a": str(a["raw"])[:1500], "b": str(b["raw"])[:1500]}})
